@@ -123,7 +123,7 @@ class C12(runner.Check):
   ]
   runs = {'quick': 3200, 'thorough': 40000}
   budget_s = {'quick': 100, 'thorough': 1200}
-  chunk = 20
+  chunk = 40
   probes = ['probe.update-with-completed', 'probe.restored-from-metadata', 'probe.state-lost-new-lineage',
             'probe.deletion', 'probe.external-completed-trial', 'probe.infeasible-completion',
             'restart.clean', 'probe.stopping-trial-present', 'probe.mode.service-serializable', 'probe.mode.service-rebuild',
